@@ -39,7 +39,7 @@ META = {
                     'no fault space exists for this property (sequential refinement only)'],
     'probe_names': ['frag_into_frag', 'frag_insert_middle', 'empty_frag', 'equal_text_siblings',
                     'reinsertion_of_removed', 'normalize_merged', 'clone_deep', 'clone_shallow', 'attr_frag',
-                    'cmp_deep_common_ancestor', 'setitem_frag', 'detached_target', 'dfs_exhaustive', 'str_argument'],
+                    'cmp_deep_common_ancestor', 'setitem_frag', 'detached_target', 'dfs_exhaustive', 'str_argument', 'shadow_container_edit'],
     'shrink_budget': 500,
     'enum_batch': {'quick': 4, 'thorough': 1},
 }
@@ -47,7 +47,7 @@ META = {
 TAGS = ['a', 'b', 'c']
 TEXTS = ['x', 'y', 'x', ' ', 'zz', 'x', '']
 OPS = ['NEW_ELEM', 'NEW_TEXT', 'NEW_FRAG', 'APPEND', 'INSERT', 'INSERT_BEFORE', 'INSERT_AFTER',
-       'REPLACE', 'REMOVE', 'POP', 'SETITEM', 'EXTEND', 'SETATTR', 'NORMALIZE', 'CLONE', 'STR']
+       'REPLACE', 'REMOVE', 'POP', 'SETITEM', 'EXTEND', 'SETATTR', 'NORMALIZE', 'CLONE', 'STR', 'SHADOW']
 
 
 def generate(seed, tier):
@@ -87,6 +87,8 @@ def generate(seed, tier):
             ops.append({'op': o, 't': r.randrange(64), 'deep': r.random() < 0.7})
         elif o == 'SETATTR':
             ops.append({'op': o, 't': r.randrange(64), 'a': r.randrange(64), 'key': r.choice(['k1', 'k2'])})
+        elif o == 'SHADOW':
+            ops.append({'op': o, 'how': r.choice(['pop', 'remove']), 't': r.randrange(64), 'i': r.randrange(64)})
         elif o == 'STR':
             ops.append({'op': o, 'how': r.choice(['append', 'insert', 'setitem']), 't': r.randrange(64), 'i': r.randrange(64),
                         'text': r.choice(TEXTS)})
@@ -113,7 +115,7 @@ def _newfrag(r):
 # model
 
 class M(object):
-    __slots__ = ('kind', 'tag', 'text', 'children', 'parent', 'attrs', 'holder', 'spent', 'real', 'hid')
+    __slots__ = ('kind', 'tag', 'text', 'children', 'parent', 'attrs', 'holder', 'spent', 'real', 'hid', 'shadow')
 
     def __init__(self, kind, real, tag=None, text=None, hid=0):
         self.kind, self.real, self.tag, self.text, self.hid = kind, real, tag, text, hid
@@ -122,6 +124,7 @@ class M(object):
         self.attrs = {}
         self.holder = None
         self.spent = False
+        self.shadow = None      # nodes a spent fragment / shallow clone still LISTS although they live elsewhere
 
     def subtree(self):
         out = [self]
@@ -219,6 +222,7 @@ class World(object):
         items = list(arg.children) if arg.kind == 'f' else [arg]
         if arg.kind == 'f':
             arg.spent = True
+            arg.shadow = list(items)     # this DOM does not empty an inserted fragment
             arg.children = []
         target.children[i:i] = items
         for it in items:
@@ -244,6 +248,24 @@ class World(object):
         if o == 'NEW_FRAG':
             if len(self.nodes) < 20:
                 self.new_frag(op['kids'])
+            return
+        if o == 'SHADOW':
+            # a removal issued on a container that merely still LISTS nodes living elsewhere (an inserted fragment,
+            # a shallow clone): its own list shrinks, the tree those nodes live in must not notice
+            cont = [m for m in self.nodes if m.shadow]
+            if not cont:
+                return
+            t = cont[op['t'] % len(cont)]
+            i = op['i'] % len(t.shadow)
+            x = t.shadow[i]
+            if op['how'] == 'pop':
+                ret = t.real.pop(i)
+            else:
+                ret = t.real.removeChild(x.real)
+            if ret is not x.real:
+                raise Violation('C06|return|shadow-%s' % op['how'], {'what': 'removal on a fragment/clone returned another node'})
+            t.shadow.pop(i)
+            self.info['shadow_container_edit'] = 1
             return
         if o == 'STR':
             # a plain str argument: the DOM turns it into a text node of this document itself
@@ -493,6 +515,10 @@ class World(object):
             self.info['clone_shallow'] = 1
             if c is t.real or type(c) is not type(t.real) or c.nodeName != t.real.nodeName:
                 raise Violation('C06|clone|shallow', {})
+            if t.children and len(self.nodes) < 40:
+                sc = self._reg(M(t.kind, c, tag=t.tag))
+                sc.spent = True                  # never a target or argument of ordinary edits
+                sc.shadow = list(t.children)     # a shallow clone lists the original's children
 
     def _real_subtree(self, real):
         out = [real]
